@@ -10,9 +10,9 @@ Guard of `merge_succeeds_replace` (lean/Props/C16.lean): `compatible_content` is
 types (`compatTransB`, lean/PM/UndoGuard.lean).  Tie: for every schema used, the guard evaluated with the real
 `NodeType.compatible_content` is compared with the model's value (driver op `compatTrans`).  Relational oracle:
 guard true and the pair applies  =>  the merged step applies in the real code.  Every schema of the bundled family
-(the property's quantifier) has to satisfy the guard; in a random schema that does not, a merged replace step that is
-refused although the pair applied is counted (`merged-fails:guard-false`), not reported — the statement is false there
-(`merge_needs_guard`, same file).
+(the property's quantifier) has to satisfy the guard; in a schema that does not, a merged replace step that is refused
+although the pair applied is counted (`merged-fails:guard-false`), not reported, when the per-case guard below is false —
+the statement is false there (`merge_needs_guard`, same file) — and reported otherwise.
 
 Per-case guard of `merge_succeeds_replace_backward` (`mergeCompat`, lean/PM/MergeGuard.lean): in the second `merge`
 branch the ancestors of `second.from` and of `first.to` in the original document have join-compatible types at every
@@ -341,11 +341,11 @@ def run(ctx):
                     cmetas.append((replay, rg))
                     if guard_of[id(info)] and not rg[0]:
                         # compatTransB and the pair applying imply the per-case guard (mergeCompat_of_trans)
-                        ctx.violation("guard-order", "the schema guard holds, the pair applies, the per-case guard is false", replay)
+                        ctx.mismatch("mergeCompat", replay, "the schema guard holds and the pair applies, so the per-case guard holds", "per-case guard false")
                     if not rg[0] and dm is not None:
                         # the guard is necessary as well (mergeCompat_of_merged_applies): the model says this cannot happen
                         ctx.mismatch("mergeCompat", replay, "guard false, so the merged step is refused", "the real merged step applies")
-                if dm is None and not rg[0]:
+                if dm is None and not rg[0] and not guard_of[id(info)]:
                     ctx.count("merged-fails:guard-false")      # explained by the per-case guard (merge_needs_guard)
                 elif dm is None:
                     ctx.violation("merged-fails", "the merged step does not apply although the two-step sequence does", replay)
@@ -403,7 +403,8 @@ def run(ctx):
     return ctx.finish(
         rule="a case is (document, first step, second step) with the second applying to the result of the first: typing/backspacing "
              "style adjacent replace steps, replace steps with open slices, overlapping/touching mark steps, random pairs; "
-             "bundled-family and random schemas; non-trivial = the real merge returned a step")
+             "deletions joining two or three siblings backwards and forwards; bundled-family, random and aimed schemas (compatible_content "
+             "not transitive; text children that may not repeat); non-trivial = the real merge returned a step")
 
 
 if __name__ == "__main__":
